@@ -101,6 +101,13 @@ def run(prop, tier, seed):
             discharged = 0
         if not audit_ok:
             proof_problems.append({"what": "audit failed", "report": audit_report})
+        if tier == "thorough":
+            mods = sorted(m for m in core.transitive_local_imports(prop.lean_module) if ".Props." in m or ".Lemmas." in m)
+            lc_ok, lc_log = core.leanchecker(mods)
+            audit_report["leanchecker"] = {"modules": mods, "ok": lc_ok}
+            if not lc_ok:
+                proof_problems.append({"what": "leanchecker rejected a compiled module", "log": lc_log})
+                discharged = 0
 
     rng = random.Random(seed)
     cases = _uniq(prop.corpus() + prop.gen(rng, tier))
@@ -211,6 +218,7 @@ def run(prop, tier, seed):
         "checker_cmd": f"cd /verif/lean && lake build {prop.lean_module} && lake env lean <audit file with #print axioms>",
         "trusted_base": prop.trusted_base,
         "theorems": {t: audit_report.get("axioms", {}).get(t) for t in theorems},
+        "leanchecker": audit_report.get("leanchecker"),
         "partial_theorems": prop.partial_theorems,
         "traces_validated_against_impl": len(corr_cases) - len([d for d in disagreements if d["case"]]),
         "correspondence_disagreements": len(disagreements),
